@@ -117,6 +117,36 @@ def _run_case(line: str) -> str:
     return " ".join([hx(io.remaining())] + out)
 
 
+class _Boom(Exception):
+    pass
+
+
+class _BaseBoom(BaseException):
+    pass
+
+
+_EXIT_EXCS = [_Boom, KeyboardInterrupt, _BaseBoom, GeneratorExit, SystemExit]
+_exit_rot = [0]
+
+
+def leave(frames, kind, exceptional):
+    """leave the innermost `with` block of that kind, normally or by an exception (the kinds
+    of exception rotate: Exception and BaseException subclasses)"""
+    st = frames[kind].pop()
+    if not exceptional:
+        st.close()
+        return
+    exc_t = _EXIT_EXCS[_exit_rot[0] % len(_EXIT_EXCS)]
+    _exit_rot[0] += 1
+    exc = exc_t("body")
+    try:
+        if not st.__exit__(exc_t, exc, None):
+            pass
+    except BaseException as e:  # the exception travels on, as it would out of the `with` block
+        if e is not exc:
+            raise
+
+
 def enter(frames, kind, cm):
     st = contextlib.ExitStack()
     st.enter_context(cm)
@@ -131,10 +161,10 @@ def do_op(ch, f, fwd, frames):
     if k == "wp+":
         enter(frames, "p", ch.with_prompt(regen.pat_of_wire(f[1]).api()))
         return "ok"
-    if k == "wp-":
+    if k in ("wp-", "wp-!"):
         if not frames["p"]:
             return "badop"
-        frames["p"].pop().close()
+        leave(frames, "p", k.endswith("!"))
         return "ok"
     if k == "bl":
         ch._write_blacklist = list(unhx(f[1]))
@@ -194,18 +224,18 @@ def do_op(ch, f, fwd, frames):
     if k == "st+":
         enter(frames, "s", ch.with_stream(RecStream(int(f[1]), fwd), show_prompt=(f[2] == "1")))
         return "ok"
-    if k == "st-":
+    if k in ("st-", "st-!"):
         if not frames["s"]:
             return "badop"
-        frames["s"].pop().close()
+        leave(frames, "s", k.endswith("!"))
         return "ok"
     if k == "ds+":
         enter(frames, "d", ch.with_death_string(regen.pat_of_wire(f[1]).api(), death_class(int(f[2]))))
         return "ok"
-    if k == "ds-":
+    if k in ("ds-", "ds-!"):
         if not frames["d"]:
             return "badop"
-        frames["d"].pop().close()
+        leave(frames, "d", k.endswith("!"))
         return "ok"
     if k == "ads":
         ch.add_death_string(regen.pat_of_wire(f[1]).api(), death_class(int(f[2])))
